@@ -226,14 +226,20 @@ def r18_7(prog, rep):
 
 
 def r18_8(prog, rep, rule="R18.8"):
-    """An 'iterable of pairs' is recognised by any 2-element collection in first position (JSON text of pairs gives lists)."""
+    """An 'iterable of pairs' is recognised by its first element.  The class part of that test is evaluated abstractly:
+    it must accept the ordered 2-sequences pairs are written as (tuple; list, which is what the JSON text of pairs gives)
+    and must reject classes for which `k, v = element` loses content (a 2-key dict gives its keys, a set has no order,
+    a 2-character string gives characters)."""
     f = prog.functions.get(f"{C.SERDES}._is_iterable_of_pairs")
     if f is None:
         rep.undecided(rule, f"{C.SERDES}.iteritems", "", "peek helper not found")
         return
-    ok = True
+    pe = C.PredEval(prog)
+    MUST = ["builtins.tuple", "builtins.list"]
+    MUST_NOT = ["builtins.dict", "builtins.set", "builtins.frozenset", "builtins.str", "builtins.bytes"]
     seen = 0
-    why = ""
+    missing, lossy = set(), set()
+    two_ok = True
     for p, r in P.returns(P.paths_of(prog, f)):
         if r[0] != "tuple" or len(r[1]) != 2:
             continue
@@ -241,13 +247,34 @@ def r18_8(prog, rep, rule="R18.8"):
         if flag == ("const", False):
             continue
         seen += 1
-        coll = T.contains(flag, lambda s: T.is_call_to(s, f"{C.INSP}.iscollectiontype", f"{C.INSP}.issequencetype", f"{C.INSP}.isiterabletype"))
-        two = T.contains(flag, lambda s: s[0] == "cmp" and s[1] == "==" and T.is_call_to(s[2], "builtins.len") and s[3] == ("const", 2))
-        narrow = [s for s in T.walk(flag) if (T.is_call_to(s, "builtins.isinstance") and T.refname(s[2][1]) in ("builtins.tuple", "builtins.list")) or (s[0] == "cmp" and s[1] in ("is", "==") and T.refname(s[3]) in ("builtins.tuple", "builtins.list"))]
-        if not (coll and two) or narrow:
-            ok = False
-            why = "the pairs test is narrowed to one concrete class" if narrow else "the pairs test is not `2-element collection`"
-    rep.check(ok and seen > 0, rule, f.qualname, f.loc, "a first element that is any 2-element collection marks an iterable of pairs", f"{why}: pairs given as lists (the JSON text of pairs, a generator of lists) are enumerated by index instead, so a structured target silently gets its defaults", detail="pairs-test")
+        two_ok = two_ok and T.contains(flag, lambda s: s[0] == "cmp" and s[1] == "==" and T.is_call_to(s[2], "builtins.len") and s[3] == ("const", 2))
+
+        def abstract(x):
+            if x[0] == "call" and (T.refname(x[1]) == "builtins.next" or (x[1][0] == "attr" and x[1][2] == "peek")):
+                return ("param", "E")
+            if x[0] == "cmp" and T.is_call_to(x[2], "builtins.len"):
+                return ("const", True)
+            return None
+
+        cond = T.rewrite(flag, abstract)
+        for cls in MUST + MUST_NOT:
+            v = pe.val(cond, {"E": C.TypeArg(cls, flags=frozenset({"instance"}))}, 0)
+            if v is None or v == ("raises",):
+                rep.undecided(rule, f.qualname, f.loc, f"pairs test not evaluable on an element of class {cls}", detail="pairs-test")
+                return
+            if cls in MUST and not pe.truthy(v):
+                missing.add(cls)
+            if cls in MUST_NOT and pe.truthy(v):
+                lossy.add(cls)
+    ok = seen > 0 and two_ok and not missing and not lossy
+    why = []
+    if missing:
+        why.append(f"2-element {sorted(c.rsplit('.', 1)[1] for c in missing)} first elements are not recognised as pairs (the JSON text of pairs gives lists): they are enumerated by index, so a structured target silently gets its defaults")
+    if lossy:
+        why.append(f"a first element of class {sorted(c.rsplit('.', 1)[1] for c in lossy)} with two members is taken for a pair: `k, v = element` then yields the two keys of a dict / two characters of a string and the values are lost")
+    if not two_ok:
+        why.append("the length-2 test is missing")
+    rep.check(ok, rule, f.qualname, f.loc, "the pairs test accepts 2-element tuples and lists and rejects mappings, sets and text", "; ".join(why) or "no pairs test found", detail="pairs-test")
 
 
 def r18_5(prog, rep):
